@@ -161,7 +161,7 @@ func makeEntries(k, lg, maxDepth int, small bool) ([]*hEntry, *verifmodel.NameHa
 		if verifrt.Native() {
 			e.name = verifmodel.FindName(i, e.hash, maxDepth*lg)
 		} else {
-			e.name = string(rune('a'+i)) + "x"
+			e.name = string(rune('a'+i)) + "x" + string(rune('p'+i)) // no name is a suffix, prefix or extension of another
 			tab.Set(e.name, e.hash)
 		}
 		es = append(es, e)
